@@ -2,6 +2,7 @@
 from __future__ import annotations
 
 import json
+import re
 import time
 import warnings
 from typing import List
@@ -132,7 +133,12 @@ def _rt(ch, spec, model, free_values):
             warnings.simplefilter("error")
             d = call(DictDecoder(context=ctx, config=pcfg).decode, data, clazz)
         if d[0] == "exc":
-            if fname == "filter_none" and "'qname':" in repr(data) and type(d[1]).__name__ == "ParserError" and "properties(['qname'" in str(d[1]):
+            m = re.search(r"properties\(\[([^\]]*)\]\)", str(d[1]))
+            keys = set(re.findall(r"'(\w+)'", m.group(1))) if m else set()
+            generic_keys = {"qname", "text", "tail", "children", "attributes", "value", "type"}
+            # the object that could not be bound is a generic element that lost its None-valued keys
+            if fname == "filter_none" and ("'children': [" in repr(data) or "'qname': " in repr(data)) and type(d[1]).__name__ == "ParserError" and keys and keys <= generic_keys and (
+                    keys < {"qname", "text", "tail", "children", "attributes"} or keys < {"qname", "value", "type"}):
                 return dict(ok=False, case=c, bucket="KF/filter-none-generic-element-not-recognised",
                             detail=f"decode raised {d[1]!r}\n{data!r}")
             return dict(ok=False, case=c, bucket=f"decode-raises/{fname}/" + sig(spec, exprs, d[1]), detail=f"decode of the encoder's own output raised {d[1]!r}\n{data!r}")
@@ -170,7 +176,7 @@ def run(tier: str, seed: int) -> int:
     t0 = time.time()
     th = tier == "thorough"
     maxf, dm, dv = (3, 3, 2) if th else (2, 3, 2)
-    vecs = G.enumerate_models(dm, maxf, CATS)
+    vecs = G.enumerate_models(dm, maxf, CATS, twins=True)
     tasks = []
     for v in vecs:
         tasks.append(("c04.rt", dict(vec=v, maxf=maxf, free_values=True), 0, ()))
